@@ -45,7 +45,7 @@ def _fn_body(src, name):
 def scan():
     t = {"footer_size": None, "min_file_size": None, "footer_len_checked": None, "setmap_implemented": None,
          "double_checked": None, "vlq_shift_checked": None, "fid_add_checked": None, "list_len_checked": None,
-         "page_copy_len_checked": None}
+         "page_copy_len_checked": None, "chunk_range_checked": None}
     md = _read("metadata/mod.rs")
     m = re.search(r"const\s+FOOTER_SIZE\s*:\s*usize\s*=\s*(\d+)\s*;", md)
     if m:
@@ -92,6 +92,14 @@ def scan():
         # alternative shape of the repair: both header sizes converted with usize::try_from and compared once up front
         conv = re.search(r"usize::try_from\(\s*metadata\.compressed_page_size", pr) and re.search(r"usize::try_from\(\s*metadata\.uncompressed_page_size", pr)
         t["page_copy_len_checked"] = nchk >= ncopy or bool(conv)
+    # reader.rs fetch loop: chunk range compared with the file size before the buffer is sized, and a read of 0 bytes
+    # into a non-empty buffer is an error
+    rd = _read("reader.rs")
+    a, b = rd.find("col.byte_range()"), rd.find("prepare_for_chunk(")
+    if 0 <= a < b and "call_poll_read" in rd:
+        range_chk = "call_size()" in rd[a:b] and "checked_add" in rd[a:b]
+        eof_chk = bool(re.search(r"Poll::Ready\(Ok\(0\)\)\s*if\s*!read_buf\.is_empty\(\)", rd))
+        t["chunk_range_checked"] = range_chk and eof_chk
     return t
 
 
@@ -112,7 +120,9 @@ def render(t):
         "Definition fid_add_checked : option bool := %s." % ob(t["fid_add_checked"]),
         "Definition list_len_checked : option bool := %s." % ob(t["list_len_checked"]),
         "(* column/page_reader.rs: every `dest.copy_from_slice(src)` of an uncompressed page is guarded by a length test *)",
-        "Definition page_copy_len_checked : option bool := %s." % ob(t["page_copy_len_checked"]), ""])
+        "Definition page_copy_len_checked : option bool := %s." % ob(t["page_copy_len_checked"]),
+        "(* reader.rs: chunk range checked against the file size before prepare_for_chunk, and Ok(0) reads are errors *)",
+        "Definition chunk_range_checked : option bool := %s." % ob(t["chunk_range_checked"]), ""])
 
 
 def regenerate():
